@@ -260,10 +260,13 @@ pub fn get_current_dir() -> String {
     str_current_dir.to_string()
 }
 
+/// Splits `line` into at most `max` fields; the last one holds the rest of
+/// the line as it stands, separators included.
 pub fn split_into_fields(
     sh: &shell::Shell,
     line: &str,
     envs: &HashMap<String, String>,
+    max: usize,
 ) -> Vec<String> {
     let ifs_chars;
     if envs.contains_key("IFS") {
@@ -276,16 +279,41 @@ pub fn split_into_fields(
         ifs_chars = vec![];
     }
 
-    if ifs_chars.is_empty() {
-        // a run of blanks separates two fields, it does not hold empty ones
-        return line
-            .split(&[' ', '\t', '\n'][..])
-            .filter(|x| !x.is_empty())
-            .map(|x| x.to_string())
-            .collect();
-    } else {
-        return line.split(&ifs_chars[..]).map(|x| x.to_string()).collect();
+    // a run of blanks separates two fields, it does not hold empty ones
+    let blanks = ifs_chars.is_empty();
+    let is_sep = |c: char| {
+        if blanks {
+            c == ' ' || c == '\t' || c == '\n'
+        } else {
+            ifs_chars.contains(&c)
+        }
+    };
+
+    let mut fields = Vec::new();
+    let mut rest = line;
+    loop {
+        if blanks {
+            rest = rest.trim_start_matches(is_sep);
+            if rest.is_empty() {
+                break;
+            }
+        }
+        if fields.len() + 1 >= max {
+            fields.push(rest.to_string());
+            break;
+        }
+        match rest.char_indices().find(|(_, c)| is_sep(*c)) {
+            Some((i, c)) => {
+                fields.push(rest[..i].to_string());
+                rest = &rest[i + c.len_utf8()..];
+            }
+            None => {
+                fields.push(rest.to_string());
+                break;
+            }
+        }
     }
+    fields
 }
 
 pub fn is_builtin(s: &str) -> bool {
